@@ -2,7 +2,7 @@
    Main ingredients: the header parser is local (an entry that ends inside a prefix does not depend on what follows,
    apart from one look-ahead byte), the inserted line parses as one entry, Split moves by the length of the line. *)
 From Coq Require Import List NArith Bool Arith Lia.
-From Gluon Require Import Base.DecBytes Model.Rfc822Split Model.Rfc822Header Proofs.Rfc822HeaderProofs.
+From Gluon Require Import Base.DecBytes Model.Rfc822Split Model.Rfc822Header Proofs.Rfc822HeaderProofs Gen.FactsHeaderKey.
 Import ListNotations.
 
 (* a byte that is neither white space, CR, LF nor ':' *)
@@ -724,3 +724,68 @@ Example erase_set_header_needs_a_field :
   has_field lit = false /\
   exists out, set_header_value lit key [49%N] = Some out /\ erase_header_value out key <> Some lit.
 Proof. vm_compute. split; [reflexivity|]. eexists. split; [reflexivity|]. discriminate. Qed.
+
+(* ---------- which bytes a field name may consist of ---------- *)
+(* T1: the comparison constants of validateHeaderField are those of the model *)
+Lemma key_byte_ok_is_fact_range : forall b,
+  key_byte_ok b = (N.leb header_key_lo b && N.leb b header_key_hi) /\ header_key_lo = 33%N /\ header_key_hi = 126%N.
+Proof. intros b. repeat split. Qed.
+
+(* every key-bearing entry the parser yields has a name of bytes 33..126 without ':' *)
+Lemma keyed_entry_name_bytes : forall h e n, keyStart e <= length h ->
+  hp_next (length h) (skipn (keyStart e) h) (keyStart e) = NOk e n -> has_key e = true ->
+  e_key h e <> [] /\
+  forallb (fun b => key_byte_ok b && negb (N.eqb b COLON)) (e_key h e) = true.
+Proof.
+  intros h e n Hks Hn Hke.
+  assert (Hinv : keyStart e + length (skipn (keyStart e) h) = length h) by (rewrite skipn_length; lia).
+  pose proof (hp_next_key_valid _ _ _ _ _ Hinv Hn Hke) as (K1 & K2 & K3 & K4).
+  pose proof (hp_next_ok _ _ _ _ _ Hinv Hn) as (_ & E2 & _).
+  assert (Hkk : keyStart e < keyEnd e).
+  { unfold has_key in Hke. destruct (Nat.eqb_spec (keyStart e) (keyEnd e)); [discriminate|lia]. }
+  assert (Hkey : e_key h e = firstn (keyEnd e - keyStart e) (skipn (keyStart e) h)) by reflexivity.
+  split.
+  { intros Hnil. assert (Hl : length (e_key h e) = keyEnd e - keyStart e) by (unfold e_key; apply slice_length; lia).
+    rewrite Hnil in Hl. cbn in Hl. lia. }
+  rewrite Hkey.
+  assert (Hpre : forallb (fun b => negb (N.eqb b COLON) && negb (N.eqb b LF))
+                   (firstn (keyEnd e - keyStart e) (skipn (keyStart e) h)) = true).
+  { pose proof Hn as Hn'. unfold hp_next in Hn'.
+    destruct (skipn (keyStart e) h) as [|b0 t0] eqn:Es; [discriminate|]. rewrite <- Es in *.
+    destruct (find_key (skipn (keyStart e) h) (keyStart e) true) as [|m|j ok rest] eqn:Ek.
+    - try rewrite Es in Hn'. discriminate.
+    - try rewrite Es in Hn'. inversion Hn' as [[He Hm]]. rewrite <- He in Hke. unfold has_key in Hke. cbn in Hke.
+      rewrite Nat.eqb_refl in Hke. discriminate.
+    - pose proof (find_key_colon_prefix _ _ _ _ _ _ Ek) as Hp.
+      rewrite <- (hp_next_keyEnd _ _ _ _ _ _ _ _ Hinv Ek Hn) in Hp. exact Hp. }
+  revert K2 Hpre. generalize (firstn (keyEnd e - keyStart e) (skipn (keyStart e) h)).
+  induction l as [|b l IH]; intros K2 Hpre; [reflexivity|].
+  cbn [forallb] in *. apply andb_true_iff in K2 as [A1 A2]. apply andb_true_iff in Hpre as [B1 B2].
+  apply andb_true_iff in B1 as [B1 _]. rewrite A1, B1. cbn [andb]. apply IH; assumption.
+Qed.
+
+(* ---------- SetHeaderValue preserves every other byte, in both branches ---------- *)
+Lemma set_header_preserves : forall lit key val out, set_header_value lit key val = Some out ->
+  exists k, k <= length (split_header lit) /\
+            out = firstn k lit ++ join_line key val ++ skipn k lit /\
+            length out = length lit + length (join_line key val).
+Proof.
+  intros lit key val out H. unfold set_header_value in H.
+  set (raw := split_header lit) in *.
+  destruct (hp_find (S (length raw)) (length raw) has_key raw 0) as [e| | |] eqn:Ef; try discriminate.
+  - inversion H; subst out; clear H.
+    assert (Ef' : hp_find (S (length raw)) (length raw) has_key (skipn 0 raw) 0 = FFound e) by exact Ef.
+    destruct (hp_find_reaches raw has_key _ 0 e (Nat.le_0_l _) Ef') as (_ & _ & n & Hn).
+    assert (Hk : keyStart e <= length raw).
+    { destruct (Nat.le_gt_cases (keyStart e) (length raw)); [auto|]. rewrite skipn_all2 in Hn by lia. discriminate. }
+    exists (keyStart e). split; [exact Hk|]. split; [reflexivity|].
+    rewrite !app_length. pose proof (f_equal (@length N) (firstn_skipn (keyStart e) lit)) as Hl.
+    rewrite app_length in Hl. lia.
+  - inversion H; subst out; clear H. exists (length raw). split; [lia|].
+    assert (Hr : raw = firstn (length raw) lit) by (unfold raw; apply split_header_prefix).
+    assert (Hb : split_body lit = skipn (length raw) lit).
+    { unfold raw. rewrite split_header_length. reflexivity. }
+    rewrite Hb. split; [rewrite <- Hr; reflexivity|].
+    rewrite !app_length. pose proof (f_equal (@length N) (firstn_skipn (length raw) lit)) as Hl.
+    rewrite app_length in Hl. rewrite <- Hr in Hl. lia.
+Qed.
